@@ -4,6 +4,8 @@ import (
 	"encoding/json"
 	"fmt"
 	"os"
+	"semaverif/engine/faultx"
+	"strings"
 
 	"semaverif/engine/seqx"
 )
@@ -47,6 +49,33 @@ func (s *ShardSystem) Apply(raw json.RawMessage) []seqx.Viol {
 			s.Obs = keep
 		}
 		s.Applied = append(s.Applied, op)
+		return nil
+	}
+	if strings.HasSuffix(op.Name, "!commit-fails") {
+		// The batch runs to the end of its storage transaction function - every index has done
+		// its work on the shared caches - and then the transaction fails to commit (disk full,
+		// I/O error): storage rolls back, the model does not change, and what the warm caches
+		// answer afterwards must not either.  File-backed instances only (memstore cannot roll back).
+		if s.In.Proxy == nil {
+			return nil
+		}
+		fmt.Fprintf(os.Stderr, "@@J-APPLY %s expect-reject\n", op.Name)
+		s.In.Proxy.Arm(&faultx.Fault{Tx: 1, Kind: faultx.KReturn, Ordinal: 1, Action: "fail"}, s.In.Path+".snap")
+		got := s.In.ApplySettled(op)
+		fired := s.In.Proxy.Fired()
+		s.In.Proxy.Arm(nil, "")
+		fmt.Fprintf(os.Stderr, "@@J-FAILED %s\n", op.Name)
+		if fired && got.Err == nil {
+			return []seqx.Viol{{Sig: "storage-error-swallowed", Detail: op.Name + " met a failing commit but reported success"}}
+		}
+		if sig, detail := LateViolation(op, got); sig != "" {
+			return []seqx.Viol{{Sig: sig, Detail: detail}}
+		}
+		if s.In.Cfg.ReopenEachOp {
+			if err := s.In.Reopen(); err != nil {
+				return []seqx.Viol{{Sig: "reopen-failed", Detail: err.Error()}}
+			}
+		}
 		return nil
 	}
 	exp := s.M.Apply(op)
